@@ -537,3 +537,629 @@ Proof.
     + exact Hc1.
     + exact Mc1.
 Qed.
+
+(* ------------------------------------------------------------------ §4 *)
+Definition addv (es : list N) (x : box) : box :=
+  mkbox (bid x) (edges x) (ext_weak x) (has_view x) (visits x + count_id (bid x) es) (mark x).
+
+Lemma trace_count_is : forall es h, trace_count es h = map (addv es) h.
+Proof.
+  induction es as [|e es IH]; intros h.
+  - simpl. rewrite <- (map_id h) at 1. apply map_ext. intros x. unfold addv, count_id. simpl.
+    destruct x; simpl. f_equal. lia.
+  - simpl. rewrite IH. unfold upd. rewrite map_map. apply map_ext. intros x.
+    unfold addv, count_id. simpl. destruct (N.eqb (bid x) e); simpl; f_equal; lia.
+Qed.
+
+Section Phases.
+Variable h0 : heap.
+Hypothesis ND0 : NoDup (ids h0).
+
+Definition Rch : N -> Prop := reachable h0 (roots h0).
+Definition sub (objs : heap) : Prop := forall b, In b objs -> exists b0, In b0 h0 /\ skel b0 = skel b.
+Definition keep (objs : heap) : Prop := forall x, Rch x -> In x (ids objs).
+Definition sound (objs : heap) : Prop := forall b, In b objs -> mark b = true -> Rch (bid b).
+
+Lemma sub_unique objs b b0 : sub objs -> In b objs -> In b0 h0 -> bid b0 = bid b -> skel b0 = skel b.
+Proof.
+  intros Hs Hb Hb0 E. destruct (Hs b Hb) as [b1 [H1 S1]].
+  assert (b1 = b0).
+  { eapply NoDup_ids_inj; eauto. destruct (skel_inv _ _ S1) as [E1 _]. congruence. }
+  subst; auto.
+Qed.
+
+Lemma Rch_edge_closed objs : sub objs -> edge_closed objs Rch.
+Proof.
+  intros Hs c e Hc Pc He Hi.
+  destruct (Hs c Hc) as [c0 [Hc0 Sc]]. destruct (skel_inv _ _ Sc) as [E1 [E2 _]].
+  apply in_ids in Hi. destruct Hi as [d [Hd Ed]].
+  destruct (Hs d Hd) as [d0 [Hd0 Sd]]. destruct (skel_inv _ _ Sd) as [E3 _].
+  apply (reach_step h0 (roots h0) c0 e).
+  - rewrite E1. exact Pc.
+  - exact Hc0.
+  - rewrite E2. exact He.
+  - apply in_ids. exists d0. split; auto. congruence.
+Qed.
+
+Lemma is_root_skel a b : skel a = skel b -> is_root a = is_root b.
+Proof. intros H. destruct (skel_inv _ _ H) as [_ [_ [E1 E2]]]. unfold is_root. now rewrite E1, E2. Qed.
+
+Lemma root_Rch objs b : sub objs -> In b objs -> is_root b = true -> Rch (bid b).
+Proof.
+  intros Hs Hb Rb. destruct (Hs b Hb) as [b0 [Hb0 Sb]].
+  destruct (skel_inv _ _ Sb) as [E1 _].
+  apply reach_root.
+  - unfold roots. apply in_ids. exists b0. split; auto. apply filter_In. split; auto.
+    rewrite (is_root_skel _ _ Sb). exact Rb.
+  - apply in_ids. exists b0; auto.
+Qed.
+
+Record Inv1 (objs : heap) (i : nat) : Prop := {
+  i1_nd : NoDup (ids objs);
+  i1_le : i <= length objs;
+  i1_sub : sub objs;
+  i1_keep : keep objs;
+  i1_sound : sound objs;
+  i1_closed : closed objs;
+  i1_V : forall b, In b objs -> mark b = false -> visits b = in_count (firstn i objs) (bid b);
+  i1_view : forall b, In b (firstn i objs) -> has_view b = true -> mark b = true;
+}.
+
+Lemma firstn_In {A} (l : list A) n x : In x (firstn n l) -> In x l.
+Proof. intros H. rewrite <- (firstn_skipn n l). apply in_or_app. auto. Qed.
+
+Lemma Inv1_perm objs objs' i : Inv1 objs i -> Permutation objs objs' ->
+  Permutation (firstn i objs) (firstn i objs') -> Inv1 objs' i.
+Proof.
+  intros [nd le sb kp sd cl V vw] P Pf.
+  assert (Hin : forall x, In x objs' -> In x objs) by (intros x; apply Permutation_in; now apply Permutation_sym).
+  constructor.
+  - eapply Permutation_NoDup; [|exact nd]. unfold ids. now apply Permutation_map.
+  - rewrite <- (Permutation_length P). exact le.
+  - intros b Hb. apply sb. auto.
+  - intros x Hx. eapply Permutation_in; [|apply kp; exact Hx]. unfold ids. now apply Permutation_map.
+  - intros b Hb. apply sd. auto.
+  - intros c e d Hc Mc He Hd Ed. apply (cl c e d (Hin c Hc) Mc He (Hin d Hd) Ed).
+  - intros b Hb Mb. rewrite (V b (Hin b Hb) Mb). now apply in_count_perm.
+  - intros b Hb. apply vw. eapply Permutation_in; [apply Permutation_sym; exact Pf|exact Hb].
+Qed.
+
+Lemma Inv1_skip objs i b : Inv1 objs i -> nth_error objs i = Some b -> mark b = true ->
+  Inv1 objs (S i).
+Proof.
+  intros [nd le sb kp sd cl V vw] Hn Mb.
+  assert (Hb : In b objs) by (eapply nth_error_In; eauto).
+  constructor; auto.
+  - apply nth_error_lt in Hn. lia.
+  - intros x Hx Mx. rewrite (firstn_S_nth _ _ _ Hn). rewrite in_count_app, in_count_cons.
+    rewrite (closed_count_zero objs b x cl Hb Mb Hx Mx). rewrite (V x Hx Mx). unfold in_count. simpl. lia.
+  - intros x Hx Vx. rewrite (firstn_S_nth _ _ _ Hn) in Hx. apply in_app_or in Hx.
+    destruct Hx as [Hx|[<-|[]]]; auto.
+Qed.
+
+Lemma Inv1_marks objs i St : Inv1 objs i -> closed (set_marks St objs) -> sound (set_marks St objs) ->
+  Inv1 (set_marks St objs) i.
+Proof.
+  intros [nd le sb kp sd cl V vw] cl' sd'.
+  constructor; auto.
+  - now rewrite ids_set_marks.
+  - now rewrite length_set_marks.
+  - intros b Hb. apply in_set_marks in Hb. destruct Hb as [b1 [Hb1 ->]]. rewrite smb_skel. auto.
+  - intros x Hx. rewrite ids_set_marks. auto.
+  - intros b Hb Mb. apply in_set_marks in Hb. destruct Hb as [b1 [Hb1 ->]].
+    rewrite smb_mark in Mb. apply orb_false_iff in Mb. destruct Mb as [Mb _].
+    rewrite smb_visits, smb_bid. unfold set_marks. rewrite firstn_map. fold (set_marks St (firstn i objs)).
+    rewrite in_count_set_marks. auto.
+  - intros b Hb Vb. unfold set_marks in Hb. rewrite firstn_map in Hb. apply in_map_iff in Hb.
+    destruct Hb as [b1 [<- Hb1]]. rewrite smb_view in Vb. rewrite smb_mark. rewrite (vw b1 Hb1 Vb). reflexivity.
+Qed.
+
+Lemma mark_obj_inv objs b : NoDup (ids objs) -> sub objs -> sound objs -> closed objs ->
+  In b objs -> mark b = false -> is_root b = true ->
+  exists St, mark_obj objs b = Ok (set_marks St objs) /\ In (bid b) St
+    /\ closed (set_marks St objs) /\ sound (set_marks St objs).
+Proof.
+  intros nd sb sd cl Hb Mb Rb.
+  destruct (mark_obj_spec objs b nd Hb Mb cl) as [St [E [Hin [Cl Q]]]].
+  exists St. split; [exact E|]. split; [exact Hin|]. split; [exact Cl|].
+  intros c Hc Mc. apply (Q Rch); auto.
+  - now apply Rch_edge_closed.
+  - eapply root_Rch; eauto.
+Qed.
+
+Lemma Inv1_mark_root objs i b : Inv1 objs i -> nth_error objs i = Some b -> has_view b = true ->
+  mark b = false ->
+  exists objs1, mark_obj objs b = Ok objs1 /\ Inv1 objs1 (S i) /\ length objs1 = length objs.
+Proof.
+  intros I Hn Vb Mb. pose proof I as [nd le sb kp sd cl V vw].
+  assert (Hb : In b objs) by (eapply nth_error_In; eauto).
+  destruct (mark_obj_inv objs b nd sb sd cl Hb Mb) as [St [E [Hin [Cl Sd]]]].
+  { unfold is_root. rewrite Vb. reflexivity. }
+  exists (set_marks St objs). split; [exact E|]. split; [|apply length_set_marks].
+  apply (Inv1_skip _ i (smb St b)).
+  - now apply Inv1_marks.
+  - unfold set_marks. rewrite nth_error_map, Hn. reflexivity.
+  - rewrite smb_mark. apply orb_true_iff. right. now apply memN_in.
+Qed.
+
+Lemma not_root_weak0 objs b : has_view b = false -> weak_count objs b = 0 -> is_root b = false.
+Proof.
+  unfold weak_count, is_root. intros -> H. assert (ext_weak b = 0) by lia. rewrite H0. reflexivity.
+Qed.
+
+Lemma Inv1_remove objs i b : Inv1 objs i -> nth_error objs i = Some b -> has_view b = false ->
+  weak_count objs b = 0 -> Inv1 (swap_remove objs i) i.
+Proof.
+  intros [nd le sb kp sd cl V vw] Hn Vb W0.
+  assert (Hb : In b objs) by (eapply nth_error_In; eauto).
+  pose proof (swap_remove_perm objs i b Hn) as P.
+  assert (Hin : forall x, In x (swap_remove objs i) -> In x objs).
+  { intros x Hx. eapply Permutation_in; [exact P|]. right; auto. }
+  assert (NDc : NoDup (bid b :: ids (swap_remove objs i))).
+  { eapply Permutation_NoDup; [|exact nd]. apply Permutation_sym.
+    change (bid b :: ids (swap_remove objs i)) with (ids (b :: swap_remove objs i)).
+    unfold ids. now apply Permutation_map. }
+  assert (NR : ~ Rch (bid b)).
+  { intros R. inversion R as [x Hx Hi Ex|c0 j Rc Hc0 Hj Hi Ej].
+    - unfold roots in Hx. apply in_ids in Hx. destruct Hx as [r [Hr Er]].
+      apply filter_In in Hr. destruct Hr as [Hr Rr].
+      pose proof (sub_unique objs b r sb Hb Hr Er) as Sk.
+      rewrite (is_root_skel _ _ Sk) in Rr. rewrite (not_root_weak0 objs b Vb W0) in Rr. discriminate.
+    - pose proof (kp _ Rc) as Hc. apply in_ids in Hc. destruct Hc as [c [Hc Ec]].
+      pose proof (sub_unique objs c c0 sb Hc Hc0 (eq_sym Ec)) as Sk.
+      destruct (skel_inv _ _ Sk) as [_ [E2 _]]. rewrite E2 in Hj.
+      pose proof (in_count_pos objs c (bid b) Hc Hj). unfold weak_count in W0. lia. }
+  constructor.
+  - now inversion NDc.
+  - pose proof (Permutation_length P) as L. simpl in L. apply nth_error_lt in Hn. lia.
+  - intros x Hx. auto.
+  - intros x Hx. pose proof (kp x Hx) as H.
+    assert (H' : In x (ids (b :: swap_remove objs i))).
+    { eapply Permutation_in; [|exact H]. unfold ids. apply Permutation_map. now apply Permutation_sym. }
+    destruct H' as [E|H']; [|exact H']. exfalso. apply NR. rewrite E. exact Hx.
+  - intros x Hx. auto.
+  - intros c e d Hc Mc He Hd Ed. apply (cl c e d (Hin c Hc) Mc He (Hin d Hd) Ed).
+  - intros x Hx Mx. rewrite swap_remove_firstn by exact le. auto.
+  - intros x Hx. rewrite swap_remove_firstn in Hx by exact le. auto.
+Qed.
+
+Lemma Inv1_count objs i b : Inv1 objs i -> nth_error objs i = Some b -> has_view b = false ->
+  Inv1 (trace_count (edges b) objs) (S i).
+Proof.
+  intros [nd le sb kp sd cl V vw] Hn Vb. rewrite trace_count_is.
+  set (f := addv (edges b)).
+  assert (Hid : ids (map f objs) = ids objs).
+  { unfold ids. rewrite map_map. apply map_ext. reflexivity. }
+  constructor.
+  - now rewrite Hid.
+  - rewrite map_length. apply nth_error_lt in Hn. lia.
+  - intros x Hx. apply in_map_iff in Hx. destruct Hx as [x1 [<- Hx1]]. apply (sb x1 Hx1).
+  - intros x Hx. rewrite Hid. auto.
+  - intros x Hx Mx. apply in_map_iff in Hx. destruct Hx as [x1 [<- Hx1]]. apply (sd x1 Hx1 Mx).
+  - intros c e d Hc Mc He Hd Ed.
+    apply in_map_iff in Hc. destruct Hc as [c1 [<- Hc1]].
+    apply in_map_iff in Hd. destruct Hd as [d1 [<- Hd1]].
+    apply (cl c1 e d1 Hc1 Mc He Hd1 Ed).
+  - intros x Hx Mx. apply in_map_iff in Hx. destruct Hx as [x1 [<- Hx1]].
+    rewrite firstn_map. rewrite in_count_map by reflexivity.
+    rewrite (firstn_S_nth _ _ _ Hn). rewrite in_count_app, in_count_cons.
+    unfold f, addv. simpl. simpl in Mx. rewrite (V x1 Hx1 Mx). unfold in_count at 3. simpl. lia.
+  - intros x Hx Vx. rewrite firstn_map in Hx. apply in_map_iff in Hx. destruct Hx as [x1 [<- Hx1]].
+    rewrite (firstn_S_nth _ _ _ Hn) in Hx1. apply in_app_or in Hx1.
+    destruct Hx1 as [Hx1|[<-|[]]].
+    + apply (vw x1 Hx1 Vx).
+    + simpl in Vx. congruence.
+Qed.
+
+Lemma count_loop_spec : forall fuel objs i kwv, Inv1 objs i -> length objs - i <= fuel ->
+  exists objs', count_loop fuel objs i kwv = Ok objs' /\ Inv1 objs' (length objs').
+Proof.
+  induction fuel as [|f IH]; intros objs i kwv I Hf.
+  - simpl. destruct (nth_error objs i) as [b|] eqn:Hn.
+    + apply nth_error_lt in Hn. lia.
+    + exists objs. split; [reflexivity|]. apply nth_error_len in Hn.
+      pose proof (i1_le _ _ I). assert (i = length objs) by lia. subst i. exact I.
+  - simpl. destruct (nth_error objs i) as [b|] eqn:Hn.
+    2:{ exists objs. split; [reflexivity|]. apply nth_error_len in Hn.
+        pose proof (i1_le _ _ I). assert (i = length objs) by lia. subst i. exact I. }
+    pose proof (nth_error_lt _ _ _ Hn) as Hlt.
+    destruct (has_view b) eqn:Vb.
+    + assert (H1 : exists objs1, (if mark b then Ok objs else mark_obj objs b) = Ok objs1
+                     /\ Inv1 objs1 (S i) /\ length objs1 = length objs).
+      { destruct (mark b) eqn:Mb.
+        - exists objs. split; [reflexivity|]. split; [|reflexivity]. eapply Inv1_skip; eauto.
+        - apply Inv1_mark_root; auto. }
+      destruct H1 as [objs1 [E1 [I1 L1]]]. rewrite E1. simpl.
+      destruct (Nat.ltb kwv i) eqn:Hk.
+      * apply Nat.ltb_lt in Hk.
+        destruct (IH (swap objs1 i kwv) (S i) (S kwv)) as [objs' [E' I']].
+        { eapply Inv1_perm; [exact I1| |].
+          - apply Permutation_sym. apply swap_perm.
+          - apply Permutation_sym. now apply swap_firstn. }
+        { rewrite swap_length. lia. }
+        exists objs'. auto.
+      * destruct (IH objs1 (S i) kwv I1) as [objs' [E' I']]; [lia|]. exists objs'. auto.
+    + destruct (Nat.eqb (weak_count objs b) 0) eqn:W.
+      * apply Nat.eqb_eq in W.
+        destruct (IH (swap_remove objs i) i kwv) as [objs' [E' I']].
+        { eapply Inv1_remove; eauto. }
+        { pose proof (Permutation_length (swap_remove_perm objs i b Hn)) as L. simpl in L. lia. }
+        exists objs'. auto.
+      * destruct (mark b) eqn:Mb; simpl.
+        -- destruct (IH objs (S i) kwv) as [objs' [E' I']]; [eapply Inv1_skip; eauto|lia|].
+           exists objs'. auto.
+        -- destruct (IH (trace_count (edges b) objs) (S i) kwv) as [objs' [E' I']].
+           { eapply Inv1_count; eauto. }
+           { rewrite trace_count_is, map_length. lia. }
+           exists objs'. auto.
+Qed.
+
+(* ------------------------------------------------------------------ §5 *)
+Record Inv2 (objs : heap) (i : nat) : Prop := {
+  i2_nd : NoDup (ids objs);
+  i2_le : i <= length objs;
+  i2_sub : sub objs;
+  i2_keep : keep objs;
+  i2_sound : sound objs;
+  i2_closed : closed objs;
+  i2_V : forall b, In b objs -> mark b = false -> visits b = in_count objs (bid b);
+  i2_view : forall b, In b objs -> has_view b = true -> mark b = true;
+  i2_ext : forall b, In b (firstn i objs) -> 0 < ext_weak b -> mark b = true;
+}.
+
+Lemma Inv1_Inv2 objs : Inv1 objs (length objs) -> Inv2 objs 0.
+Proof.
+  intros [nd le sb kp sd cl V vw]. rewrite firstn_all in *.
+  constructor; auto; try lia; try (simpl; intros b []).
+Qed.
+
+Lemma Inv2_next objs i b : Inv2 objs i -> nth_error objs i = Some b ->
+  (0 < ext_weak b -> mark b = true) -> Inv2 objs (S i).
+Proof.
+  intros [nd le sb kp sd cl V vw ex] Hn Hb. constructor; auto.
+  - apply nth_error_lt in Hn. lia.
+  - intros x Hx Ex. rewrite (firstn_S_nth _ _ _ Hn) in Hx. apply in_app_or in Hx.
+    destruct Hx as [Hx|[<-|[]]]; auto.
+Qed.
+
+Lemma Inv2_marks objs i St : Inv2 objs i -> closed (set_marks St objs) -> sound (set_marks St objs) ->
+  Inv2 (set_marks St objs) i.
+Proof.
+  intros [nd le sb kp sd cl V vw ex] cl' sd'.
+  constructor; auto.
+  - now rewrite ids_set_marks.
+  - now rewrite length_set_marks.
+  - intros b Hb. apply in_set_marks in Hb. destruct Hb as [b1 [Hb1 ->]]. rewrite smb_skel. auto.
+  - intros x Hx. rewrite ids_set_marks. auto.
+  - intros b Hb Mb. apply in_set_marks in Hb. destruct Hb as [b1 [Hb1 ->]].
+    rewrite smb_mark in Mb. apply orb_false_iff in Mb. destruct Mb as [Mb _].
+    rewrite smb_visits, smb_bid, in_count_set_marks. auto.
+  - intros b Hb Vb. apply in_set_marks in Hb. destruct Hb as [b1 [Hb1 ->]].
+    rewrite smb_view in Vb. rewrite smb_mark. rewrite (vw b1 Hb1 Vb). reflexivity.
+  - intros b Hb Eb. unfold set_marks in Hb. rewrite firstn_map in Hb. apply in_map_iff in Hb.
+    destruct Hb as [b1 [<- Hb1]]. rewrite smb_ext in Eb. rewrite smb_mark. rewrite (ex b1 Hb1 Eb). reflexivity.
+Qed.
+
+Lemma mark_loop_spec : forall n objs i, Inv2 objs i -> length objs - i <= n ->
+  exists objs', mark_loop n i objs = Ok objs' /\ Inv2 objs' (length objs').
+Proof.
+  induction n as [|n IH]; intros objs i I Hn.
+  - simpl. exists objs. split; [reflexivity|]. pose proof (i2_le _ _ I).
+    assert (i = length objs) by lia. subst i. exact I.
+  - simpl. destruct (nth_error objs i) as [b|] eqn:Hb.
+    2:{ exists objs. split; [reflexivity|]. apply nth_error_len in Hb. pose proof (i2_le _ _ I).
+        assert (i = length objs) by lia. subst i. exact I. }
+    pose proof (nth_error_lt _ _ _ Hb) as Hlt.
+    assert (Hin : In b objs) by (eapply nth_error_In; eauto).
+    destruct (negb (mark b) && Nat.ltb (visits b) (weak_count objs b)) eqn:C.
+    + apply andb_true_iff in C. destruct C as [C1 C2]. apply negb_true_iff in C1. apply Nat.ltb_lt in C2.
+      pose proof I as [nd le sb kp sd cl V vw ex].
+      assert (Ex : 0 < ext_weak b).
+      { unfold weak_count in C2. rewrite (V b Hin C1) in C2. lia. }
+      destruct (mark_obj_inv objs b nd sb sd cl Hin C1) as [St [E [Hs [Cl Sd]]]].
+      { unfold is_root. apply orb_true_iff. right. now apply Nat.ltb_lt. }
+      rewrite E. simpl.
+      destruct (IH (set_marks St objs) (S i)) as [objs' [E' I']].
+      { apply (Inv2_next _ i (smb St b)).
+        - now apply Inv2_marks.
+        - unfold set_marks. rewrite nth_error_map, Hb. reflexivity.
+        - intros _. rewrite smb_mark. apply orb_true_iff. right. now apply memN_in. }
+      { rewrite length_set_marks. lia. }
+      exists objs'. auto.
+    + destruct (IH objs (S i)) as [objs' [E' I']].
+      { apply (Inv2_next _ i b); auto. intros Ex.
+        destruct (mark b) eqn:Mb; [reflexivity|]. exfalso.
+        simpl in C. apply Nat.ltb_ge in C. unfold weak_count in C.
+        rewrite (i2_V _ _ I b Hin Mb) in C. lia. }
+      { lia. }
+      exists objs'. auto.
+Qed.
+
+Lemma Inv2_complete objs : Inv2 objs (length objs) ->
+  forall x, Rch x -> forall y, In y objs -> bid y = x -> mark y = true.
+Proof.
+  intros [nd le sb kp sd cl V vw ex]. rewrite firstn_all in ex.
+  intros x R. induction R as [x Hx Hi|c0 j Rc IH Hc0 Hj Hi]; intros y Hy Ey.
+  - unfold roots in Hx. apply in_ids in Hx. destruct Hx as [r [Hr Er]].
+    apply filter_In in Hr. destruct Hr as [Hr Rr].
+    assert (Sk : skel r = skel y) by (apply (sub_unique objs); auto; congruence).
+    rewrite (is_root_skel _ _ Sk) in Rr. unfold is_root in Rr. apply orb_true_iff in Rr.
+    destruct Rr as [Rr|Rr]; [apply vw; auto|]. apply ex; auto. now apply Nat.ltb_lt.
+  - pose proof (kp _ Rc) as Hc. apply in_ids in Hc. destruct Hc as [c [Hc Ec]].
+    pose proof (sub_unique objs c c0 sb Hc Hc0 (eq_sym Ec)) as Sk.
+    destruct (skel_inv _ _ Sk) as [_ [E2 _]].
+    apply (cl c j y Hc (IH c Hc Ec)); auto. now rewrite <- E2.
+Qed.
+
+End Phases.
+
+(* ------------------------------------------------------------------ §6 *)
+Definition kept (l : heap) : heap := map reset_b (filter mark l).
+
+Lemma kept_perm l l' : Permutation l l' -> Permutation (kept l) (kept l').
+Proof.
+  intros P. unfold kept. apply Permutation_map.
+  induction P; simpl.
+  - constructor.
+  - destruct (mark x); [apply perm_skip|]; auto.
+  - destruct (mark x), (mark y); try apply perm_swap; try apply perm_skip; apply Permutation_refl.
+  - eapply perm_trans; eauto.
+Qed.
+
+Lemma upd_other i f l : (forall x, In x l -> bid x <> i) -> upd i f l = l.
+Proof.
+  intros H. unfold upd. rewrite <- (map_id l) at 2. apply map_ext_in. intros x Hx.
+  destruct (N.eqb (bid x) i) eqn:E; [|reflexivity]. apply N.eqb_eq in E. exfalso. apply (H x Hx E).
+Qed.
+
+Lemma ids_app l1 l2 : ids (l1 ++ l2) = ids l1 ++ ids l2.
+Proof. apply map_app. Qed.
+
+Lemma upd_middle pre b r f : NoDup (ids (pre ++ b :: r)) ->
+  upd (bid b) f (pre ++ b :: r) = pre ++ f b :: r.
+Proof.
+  intros ND. rewrite ids_app in ND. simpl in ND.
+  pose proof (NoDup_remove_2 _ _ _ ND) as Hnot.
+  unfold upd. rewrite map_app. simpl. rewrite N.eqb_refl.
+  fold (upd (bid b) f pre). fold (upd (bid b) f r).
+  rewrite !upd_other; auto.
+  - intros x Hx E. apply Hnot. apply in_or_app. right. apply in_ids. exists x; auto.
+  - intros x Hx E. apply Hnot. apply in_or_app. left. apply in_ids. exists x; auto.
+Qed.
+
+Lemma firstn_app_len {A} (pre X : list A) : firstn (length pre) (pre ++ X) = pre.
+Proof. induction pre; simpl; [destruct X; reflexivity|]. now rewrite IHpre. Qed.
+
+Lemma skipn_app_len {A} (pre X : list A) : skipn (length pre) (pre ++ X) = X.
+Proof. induction pre; simpl; auto. Qed.
+
+Lemma nth_error_app_len {A} (pre X : list A) : nth_error (pre ++ X) (length pre) = nth_error X 0.
+Proof. induction pre; simpl; auto. Qed.
+
+Lemma sweep_loop_spec : forall fuel pre rest, NoDup (ids (pre ++ rest)) -> length rest <= fuel ->
+  exists objs', sweep_loop fuel (pre ++ rest) (length pre) = Ok objs'
+    /\ Permutation objs' (pre ++ kept rest).
+Proof.
+  induction fuel as [|f IH]; intros pre rest ND Hf.
+  - destruct rest as [|b r]; [|simpl in Hf; lia]. simpl.
+    rewrite nth_error_app_len. simpl. exists (pre ++ []). split; [reflexivity|]. apply Permutation_refl.
+  - destruct rest as [|b r].
+    { simpl. rewrite nth_error_app_len. simpl. exists (pre ++ []). split; [reflexivity|]. apply Permutation_refl. }
+    simpl. rewrite nth_error_app_len. simpl. destruct (mark b) eqn:Mb.
+    + rewrite (upd_middle pre b r reset_b ND).
+      assert (E : pre ++ reset_b b :: r = (pre ++ [reset_b b]) ++ r) by (rewrite <- app_assoc; reflexivity).
+      rewrite E. assert (L : S (length pre) = length (pre ++ [reset_b b])) by (rewrite app_length; simpl; lia).
+      rewrite L.
+      destruct (IH (pre ++ [reset_b b]) r) as [objs' [E' P']].
+      { rewrite <- E. rewrite ids_app in *. simpl in *. exact ND. }
+      { simpl in Hf. lia. }
+      exists objs'. split; [exact E'|]. unfold kept. simpl. rewrite Mb. simpl.
+      rewrite <- app_assoc in P'. exact P'.
+    + assert (SR : swap_remove (pre ++ b :: r) (length pre) = pre ++ rot_last r).
+      { unfold swap_remove. rewrite firstn_app_len. f_equal. f_equal.
+        clear. induction pre; simpl; auto. }
+      rewrite SR.
+      destruct (IH pre (rot_last r)) as [objs' [E' P']].
+      { rewrite ids_app in *. simpl in ND. apply NoDup_remove_1 in ND.
+        eapply Permutation_NoDup; [|exact ND]. apply Permutation_app_head.
+        unfold ids. apply Permutation_map. apply Permutation_sym. apply rot_last_perm. }
+      { rewrite (Permutation_length (rot_last_perm r)). simpl in Hf. lia. }
+      exists objs'. split; [exact E'|].
+      eapply perm_trans; [exact P'|]. apply Permutation_app_head.
+      unfold kept at 2. simpl. rewrite Mb. apply kept_perm. apply rot_last_perm.
+Qed.
+
+Lemma NoDup_ids_filter f h : NoDup (ids h) -> NoDup (ids (filter f h)).
+Proof.
+  induction h as [|b t IH]; simpl; intros ND; [constructor|].
+  inversion ND as [|? ? Hn ND']; subst. destruct (f b); simpl; auto.
+  constructor; auto. intros H. apply Hn. apply in_ids in H. destruct H as [x [Hx Ex]].
+  apply filter_In in Hx. apply in_ids. exists x; tauto.
+Qed.
+
+Lemma ids_kept h : ids (kept h) = ids (filter mark h).
+Proof. unfold ids, kept. rewrite map_map. apply map_ext. reflexivity. Qed.
+
+(* ------------------------------------------------------------------ §7 *)
+Lemma reset_same y y0 : skel y0 = skel y -> visits y0 = 0 -> mark y0 = false -> reset_b y = y0.
+Proof.
+  intros S V M. destruct (skel_inv _ _ S) as [E1 [E2 [E3 E4]]].
+  destruct y0, y; simpl in *; subst. reflexivity.
+Qed.
+
+Lemma reachable_in_ids h rs i : reachable h rs i -> In i (ids h).
+Proof. intros H; inversion H; auto. Qed.
+
+(* the master statement: a collection succeeds and keeps exactly the boxes
+   reachable from the roots, each of them unchanged *)
+Theorem gc_spec : forall h, wf h ->
+  exists h', gc h = Ok h' /\ NoDup (ids h')
+    /\ forall b, In b h' <-> (In b h /\ reachable h (roots h) (bid b)).
+Proof.
+  intros h [ND W].
+  assert (I0 : Inv1 h h 0).
+  { constructor.
+    - exact ND.
+    - lia.
+    - intros b Hb. exists b; auto.
+    - intros x Hx. eapply reachable_in_ids; eauto.
+    - intros b Hb Mb. destruct (W b Hb) as [_ M]. congruence.
+    - intros c e d Hc Mc. destruct (W c Hc) as [_ M]. congruence.
+    - intros b Hb _. destruct (W b Hb) as [V _]. rewrite V. reflexivity.
+    - simpl. intros b []. }
+  destruct (count_loop_spec h ND (length h) h 0 0 I0) as [h1 [E1 I1]]; [lia|].
+  destruct (mark_loop_spec h (length h1) h1 0 (Inv1_Inv2 h h1 I1)) as [h2 [E2 I2]]; [lia|].
+  destruct (sweep_loop_spec (length h2) [] h2) as [h3 [E3 P3]]; [exact (i2_nd _ _ _ I2)|lia|].
+  simpl in E3, P3.
+  exists h3. split; [|split].
+  - unfold gc. rewrite E1. simpl. rewrite E2. simpl. exact E3.
+  - eapply Permutation_NoDup.
+    + unfold ids. apply Permutation_map. apply Permutation_sym. exact P3.
+    + fold (ids (kept h2)). rewrite ids_kept. apply NoDup_ids_filter. exact (i2_nd _ _ _ I2).
+  - pose proof I2 as [nd le sb kp sd cl V vw ex].
+    intros b. split.
+    + intros Hb. apply (Permutation_in _ P3) in Hb. unfold kept in Hb. apply in_map_iff in Hb.
+      destruct Hb as [y [Ey Hy]]. apply filter_In in Hy. destruct Hy as [Hy My].
+      destruct (sb y Hy) as [y0 [Hy0 Sk]]. destruct (W y0 Hy0) as [V0 M0].
+      rewrite (reset_same y y0 Sk V0 M0) in Ey. subst y0. split; [exact Hy0|].
+      destruct (skel_inv _ _ Sk) as [E _]. rewrite E. apply sd; auto.
+    + intros [Hb Rb]. apply (Permutation_in _ (Permutation_sym P3)).
+      pose proof (kp _ Rb) as Hi. apply in_ids in Hi. destruct Hi as [y [Hy Ey]].
+      pose proof (Inv2_complete h ND h2 I2 _ Rb y Hy Ey) as My.
+      pose proof (sub_unique h ND h2 y b sb Hy Hb (eq_sym Ey)) as Sk.
+      destruct (W b Hb) as [V0 M0].
+      unfold kept. apply in_map_iff. exists y. split; [apply reset_same; auto|].
+      apply filter_In. auto.
+Qed.
+
+Theorem gc_no_panic : forall h, wf h -> exists h', gc h = Ok h'.
+Proof. intros h H. destruct (gc_spec h H) as [h' [E _]]. eauto. Qed.
+
+Theorem gc_exact : forall h, wf h ->
+  exists h', gc h = Ok h' /\ forall i, In i (ids h') <-> reachable h (roots h) i.
+Proof.
+  intros h H. destruct (gc_spec h H) as [h' [E [_ S]]]. exists h'. split; [exact E|].
+  intros i. split.
+  - intros Hi. apply in_ids in Hi. destruct Hi as [b [Hb <-]]. apply S in Hb. tauto.
+  - intros R. pose proof (reachable_in_ids _ _ _ R) as Hi. apply in_ids in Hi.
+    destruct Hi as [b [Hb <-]]. apply in_ids. exists b. split; auto. apply S. auto.
+Qed.
+
+Theorem gc_keeps_reachable : forall h h', wf h -> gc h = Ok h' ->
+  forall b, In b h -> reachable h (roots h) (bid b) -> In b h'.
+Proof.
+  intros h h' H E b Hb R. destruct (gc_spec h H) as [h2 [E2 [_ S]]].
+  rewrite E in E2. inversion E2; subst. apply S. auto.
+Qed.
+
+Theorem gc_resets : forall h h', wf h -> gc h = Ok h' -> wf h'.
+Proof.
+  intros h h' H E. destruct (gc_spec h H) as [h2 [E2 [ND S]]].
+  rewrite E in E2. inversion E2; subst. split; [exact ND|].
+  intros b Hb. apply S in Hb. destruct Hb as [Hb _]. destruct H as [_ W]. auto.
+Qed.
+
+Lemma roots_iff h i : In i (roots h) <-> exists b, In b h /\ is_root b = true /\ bid b = i.
+Proof.
+  unfold roots. rewrite in_ids. split.
+  - intros [b [Hb E]]. apply filter_In in Hb. exists b. tauto.
+  - intros [b [Hb [R E]]]. exists b. split; auto. apply filter_In. auto.
+Qed.
+
+Lemma reachable_ext h h2 rs rs2 : (forall b, In b h -> In b h2) -> (forall i, In i rs -> In i rs2) ->
+  forall i, reachable h rs i -> reachable h2 rs2 i.
+Proof.
+  intros Hh Hr i R. induction R as [i Hi Hd|b j Rb IH Hb Hj Hd].
+  - apply reach_root; auto. apply in_ids in Hd. destruct Hd as [b [Hb E]]. apply in_ids. exists b; auto.
+  - apply (reach_step h2 rs2 b j); auto. apply in_ids in Hd. destruct Hd as [d [Hd' E]].
+    apply in_ids. exists d; auto.
+Qed.
+
+Lemma reachable_same h h2 : (forall b, In b h <-> In b h2) ->
+  forall i, reachable h (roots h) i <-> reachable h2 (roots h2) i.
+Proof.
+  intros Hh i. split; apply reachable_ext.
+  - intros b; apply Hh.
+  - intros j Hj. apply roots_iff in Hj. destruct Hj as [b [Hb [R E]]]. apply roots_iff. exists b.
+    split; [apply Hh; auto|auto].
+  - intros b; apply Hh.
+  - intros j Hj. apply roots_iff in Hj. destruct Hj as [b [Hb [R E]]]. apply roots_iff. exists b.
+    split; [apply Hh; auto|auto].
+Qed.
+
+Lemma wf_perm h h2 : Permutation h h2 -> wf h -> wf h2.
+Proof.
+  intros P [ND W]. split.
+  - eapply Permutation_NoDup; [|exact ND]. unfold ids. now apply Permutation_map.
+  - intros b Hb. apply W. eapply Permutation_in; [apply Permutation_sym; exact P|exact Hb].
+Qed.
+
+Lemma NoDup_boxes h : NoDup (ids h) -> NoDup h.
+Proof. unfold ids. apply NoDup_map_inv. Qed.
+
+(* the survivor set does not depend on the order of the object vector *)
+Theorem gc_order_irrelevant : forall h h2 h' h2', wf h -> Permutation h h2 ->
+  gc h = Ok h' -> gc h2 = Ok h2' -> Permutation h' h2'.
+Proof.
+  intros h h2 h' h2' H P E E2.
+  pose proof (wf_perm _ _ P H) as H2.
+  destruct (gc_spec h H) as [x [Ex [NDx Sx]]]. rewrite E in Ex. inversion Ex; subst x.
+  destruct (gc_spec h2 H2) as [y [Ey [NDy Sy]]]. rewrite E2 in Ey. inversion Ey; subst y.
+  apply NoDup_Permutation; try (apply NoDup_boxes; assumption).
+  assert (Hh : forall b, In b h <-> In b h2).
+  { intros b. split; apply Permutation_in; [exact P|apply Permutation_sym; exact P]. }
+  intros b. rewrite Sx, Sy. rewrite (Hh b). rewrite (reachable_same h h2 Hh). tauto.
+Qed.
+
+Lemma reach_transfer h h' : wf h -> (forall b, In b h' <-> In b h /\ reachable h (roots h) (bid b)) ->
+  forall i, reachable h (roots h) i -> reachable h' (roots h') i.
+Proof.
+  intros H S i R. induction R as [i Hi Hd|b j Rb IH Hb Hj Hd].
+  - apply roots_iff in Hi. destruct Hi as [r [Hr [Rr E]]]. subst i.
+    assert (R : reachable h (roots h) (bid r)).
+    { apply reach_root; auto. apply roots_iff. exists r; auto. }
+    assert (Hr' : In r h') by (apply S; auto).
+    apply reach_root.
+    + apply roots_iff. exists r; auto.
+    + apply in_ids. exists r; auto.
+  - apply in_ids in Hd. destruct Hd as [d [Hd E]]. subst j.
+    assert (Rd : reachable h (roots h) (bid d)).
+    { apply (reach_step h (roots h) b (bid d)); auto. apply in_ids. exists d; auto. }
+    apply (reach_step h' (roots h') b (bid d)); auto.
+    + apply S; auto.
+    + apply in_ids. exists d. split; auto. apply S; auto.
+Qed.
+
+(* a second collection right after the first keeps everything *)
+Theorem gc_idempotent : forall h h', wf h -> gc h = Ok h' ->
+  exists h'', gc h' = Ok h'' /\ Permutation h'' h'.
+Proof.
+  intros h h' H E.
+  pose proof (gc_resets h h' H E) as H'.
+  destruct (gc_spec h H) as [x [Ex [NDx Sx]]]. rewrite E in Ex. inversion Ex; subst x.
+  destruct (gc_spec h' H') as [h'' [E'' [ND'' S'']]].
+  exists h''. split; [exact E''|].
+  apply NoDup_Permutation; try (apply NoDup_boxes; assumption).
+  intros b. rewrite S''. split; [tauto|]. intros Hb. split; [exact Hb|].
+  apply (reach_transfer h h' H Sx). apply Sx in Hb. tauto.
+Qed.
+
+(* once nothing outside the heap holds a handle or a view, a collection empties the heap *)
+Theorem baseline_return : forall h, wf h -> roots h = [] -> gc h = Ok [].
+Proof.
+  intros h H R0. destruct (gc_spec h H) as [h' [E [_ S]]]. rewrite E. f_equal.
+  destruct h' as [|b t]; [reflexivity|]. exfalso.
+  destruct (proj1 (S b) (or_introl eq_refl)) as [_ R]. rewrite R0 in R.
+  clear -R. induction R as [i Hi _|]; auto.
+Qed.
+
+(* with permanent roots P: if every remaining root is permanent, every survivor is
+   reachable from P *)
+Theorem baseline_return_perm : forall h h' P, wf h -> gc h = Ok h' ->
+  (forall i, In i (roots h) -> In i P) ->
+  forall i, In i (ids h') -> reachable h P i.
+Proof.
+  intros h h' P H E HP i Hi.
+  destruct (gc_exact h H) as [x [Ex Sx]]. rewrite E in Ex. inversion Ex; subst x.
+  apply Sx in Hi. eapply reachable_ext; [| |exact Hi]; auto.
+Qed.
